@@ -27,10 +27,15 @@ class Trampoline:
                 return
         try:
             self._run()
-        finally:
+        except BaseException:
+            # An action raised: abandon the pending items. (On a normal exit
+            # _run has already set _idle under the same lock as its final
+            # emptiness check, so that an item enqueued by another thread
+            # in between is never dropped.)
             with self._lock:
                 self._idle = True
                 self._queue.clear()
+            raise
 
     def _run(self) -> None:
         ready: deque[ScheduledItem] = deque()
@@ -51,6 +56,7 @@ class Trampoline:
 
             with self._lock:
                 if len(self._queue) == 0:
+                    self._idle = True
                     break
                 item = self._queue.peek()
                 seconds = (item.duetime - item.scheduler.now).total_seconds()
